@@ -98,6 +98,21 @@ def _pfx(p):
     return {0: "", 3: "k", -3: "m", 6: "M", -6: "u"}.get(p, "10^%d " % p)
 
 
+def compare_cases_for(v, prop, tier, seed):
+    """the cross-scale COMPARISONS of the Temp model judged for another property's check (C06: the truth of == and <
+    does not change when an operand is written in another scale): the same TLC cases, cold replay only"""
+    res = run_tlc("MC_Temp", wd=workdir("tlc_temp_" + prop), env={"VERIF_TTIER": 1}, workers=8, timeout=3000)
+    require_ok(res, "MC_Temp")
+    v.add_tlc(res, "MC_Temp (cross-scale comparisons)")
+    cases = [c for c in res.exports.get("E", []) if c["op"] == "compare"]
+    rep = replay_histories([[c] for c in cases], TempDriver(), split_depth=1, label="temp_cmp_" + prop)
+    v.impl += rep["n"]
+    v.evaluations += rep["n"]
+    v.nontrivial += rep["stats"].get("ok", 0)
+    v.add_violations([dict(x, prop=prop, key="scales:" + x["key"]) for x in rep["mm"] if x["key"].startswith("compare:")])
+    v.extra["cross_scale_comparisons"] = {"cases": len(cases), "stats": rep["stats"]}
+
+
 def run_c10(tier, seed):
     v = Verdict("C10", tier, seed)
     v.assumptions = ["magnitudes on a rational grid (-500..1000 plus the absolute zeros); prefixes 10^-3, 1, 10^3 (thorough: 10^-6..10^6)",
